@@ -39,6 +39,23 @@ def step_stack(pid, tier, seed):
     return reps
 
 
+def step_vderive(cmd, cfgs_quick, cfgs_thorough, compare_digests=False):
+    def f(pid, tier, seed):
+        reps = []
+        for cfg in (cfgs_thorough if tier == "thorough" else cfgs_quick):
+            out = os.path.join(H.OUT, f"{pid}.{cmd}.{cfg}.json")
+            reps.append((f"{cmd}[{cfg}]", H.run_vderive(cfg, cmd, pid, tier, out)))
+        if compare_digests:
+            # tail-call and state-machine builds must produce identical transcripts (results, spans, callback logs)
+            dig = {n: (r["observed"].get("transcript_digest_high32"), r["observed"].get("transcript_digest_low32")) for n, r in reps}
+            if len(set(dig.values())) > 1:
+                reps[0][1]["violations"].append({"key": "DIGEST/" + ",".join(dig), "tag": "BUILDS-DIFFER", "case": "transcript digests per build: " + json.dumps({k: list(v) for k, v in dig.items()}),
+                                                 "detail": "the complete transcripts (items, spans, callback invocation logs) differ between build configurations",
+                                                 "replay": {"kind": "digest", "tag": "BUILDS-DIFFER"}})
+        return reps
+    return f
+
+
 def step_readprobe(pid, tier, seed):
     reps = []
     for cfg in ["u-dev", "u-rel", "f-dev", "f-rel"]:
@@ -169,6 +186,22 @@ prop("C20", level="model_checking", engine="vgraph+vrt",
      note="The read-trace hook records every LexerInternal::read, next and trivia call (cfg feature verif_hooks).", design_ref="5 C20",
      steps=[step_layer1, step_layer2(["t-dev"], ["t-dev"])], assumptions=L2_ASSUME)
 
+prop("C13", level="exploration", engine="vderive",
+     technique="exhaustive enumeration of all inputs up to a length bound through enums compiled with the REAL derive, carrying callbacks of every documented return type; item streams, spans and callback invocation logs compared with a hand-written reference + the documented table; tail-call vs state-machine transcripts compared by digest",
+     text="Every documented callback return type (named function and closure forms, skip callbacks, any-token forms, with and without an error callback) produces exactly the documented item for every enumerated input; callbacks run once per winning match with span()/slice() equal to the match; Skip from a callback is indistinguishable from a skip pattern (twin enum); bumping inside a callback extends the item.",
+     note="The reference lexer for these enums is hand-written (first letter + digits), independent of vcore and of logos.", design_ref="5 C13",
+     steps=[step_vderive("c13", ["tc-u-dev", "sm-u-dev"], ["tc-u-dev", "sm-u-dev", "tc-f-dev", "sm-f-dev", "tc-u-rel", "sm-u-rel", "tc-f-rel", "sm-f-rel"], compare_digests=True)], assumptions=["callback decisions are pure functions of the matched text"])
+prop("C14", level="model_checking", engine="vderive",
+     technique="breadth-first exploration of all histories of public Lexer API calls on real Lexer objects, de-duplicated on the canonical observable state; differential oracle against a fresh lexer on the remainder",
+     text="From every reachable state (definition, span, mode, extras) of two definition pairs over 14 sources: slice()/remainder() agree with the source, next() equals a fresh lexer of the active definition and mode on the remainder, clones are independent, morph preserves position / mode / extras and is undone by morphing back, spanned() equals manual iteration.",
+     note="States are real Lexer objects; the state key is exact because those fields are the whole Lexer.", design_ref="5 C14",
+     steps=[step_vderive("c14", ["tc-u-dev", "sm-u-dev"], ["tc-u-dev", "sm-u-dev", "tc-f-dev", "sm-f-dev", "tc-u-rel", "sm-u-rel", "tc-f-rel", "sm-f-rel"])], assumptions=["bump is only offered when in range (its failure behaviour is C15)"])
+prop("C15", level="exploration", engine="vderive",
+     technique="exhaustive boundary enumeration of (source, position, n) incl. wrap-around values, with catch_unwind and numeric span validation before any slicing, in dev/release x default/forbid_unsafe builds",
+     text="bump(n) returns normally iff end+n <= len (unbounded arithmetic) and lands on a boundary, panics otherwise, and in both cases leaves a span that is a valid range of the source.",
+     note="Panics are caught with catch_unwind; slices are only requested after the span has been validated numerically.", design_ref="5 C15",
+     steps=[step_vderive("c15", ["tc-u-dev", "tc-u-rel", "tc-f-dev", "tc-f-rel"], ["tc-u-dev", "tc-u-rel", "tc-f-dev", "tc-f-rel", "sm-u-rel"])], assumptions=[])
+
 ORDER = [f"C{n:02d}" for n in range(1, 21)]
 
 NOT_YET = "check under construction in this round - not claimed yet"
@@ -262,6 +295,11 @@ def replay_once(path):
     out = os.path.join(H.OUT, "replay.json")
     if kind in ("layer1", "tokens", "c16", "c18", "c19"):
         rep = H.run_engine([H.tool("vgraph"), "replay", "--prop", rec["property"], "--file", path, "--out", out], out)
+    elif kind in ("layer2", "readprobe"):
+        tier = "quick"
+        rep = H.run_vrt("t-dev" if rec["property"] == "C20" else "u-dev", tier, 0, "replay", rec["property"], out, extra=["--file", path])
+    elif kind == "vderive":
+        rep = H.run_vderive("tc-u-dev", "replay", rec["property"], "quick", out, extra=["--file", path])
     else:
         return None
     return [(v["tag"], v["detail"]) for v in rep["violations"]]
@@ -299,6 +337,8 @@ def setup():
     H.build_tools()
     for cfg in H.VRT_CFGS:
         H.ensure_vrt(cfg, "quick", 0)
+    for cfg in ["tc-u-dev", "sm-u-dev", "tc-u-rel", "tc-f-dev", "tc-f-rel"]:
+        H.ensure_vderive(cfg)
     return 0
 
 
